@@ -30,6 +30,7 @@ type VC struct {
 	havocAll  bool
 	sends     []string
 	fn        *ssa.Function
+	act       *Act
 }
 
 type Obl struct {
@@ -153,7 +154,11 @@ func (vc *VC) cover(name string, props []string, pos, guard, desc string) {
 }
 
 // script renders the SMT-LIB script of an obligation.
-func (o *Obl) script(produceModel bool) string {
+func (o *Obl) script(produceModel bool) string { return o.scriptWith(produceModel, false, "") }
+
+// scriptWith renders the script; allDecls includes declarations made after the obligation (used by replay queries),
+// trailer is appended after (check-sat).
+func (o *Obl) scriptWith(produceModel, allDecls bool, trailer string) string {
 	vc := o.vc
 	var b strings.Builder
 	b.WriteString("; obligation " + o.Name + "\n; " + strings.ReplaceAll(o.Desc, "\n", " ") + "\n")
@@ -171,7 +176,11 @@ func (o *Obl) script(produceModel bool) string {
 		f := g.specFns[k]
 		b.WriteString(vc.eng.specFnDecl(f) + "\n")
 	}
-	for _, d := range vc.decls[:o.NDecl] {
+	nd := o.NDecl
+	if allDecls {
+		nd = len(vc.decls)
+	}
+	for _, d := range vc.decls[:nd] {
 		b.WriteString(d + "\n")
 	}
 	for _, l := range g.background(body) {
@@ -189,7 +198,9 @@ func (o *Obl) script(produceModel bool) string {
 		b.WriteString("(assert (not " + o.Goal + "))\n")
 	}
 	b.WriteString("(check-sat)\n")
-	if produceModel {
+	if trailer != "" {
+		b.WriteString(trailer)
+	} else if produceModel {
 		b.WriteString("(get-model)\n")
 	}
 	return b.String()
